@@ -1004,6 +1004,9 @@ def _count(ctx, case, evs):
     ctx.count('ops:%s' % ('<=10' if n <= 10 else '<=20' if n <= 20 else '<=30' if n <= 30 else '<=40'))
     if case.get('dups'):
         ctx.count('with_id_collisions')
+    if case.get('torn'):
+        ctx.count('torn:all_offsets_cases')
+        ctx.extra.setdefault('_torn_files', set()).add((case['torn'][0], case['timeout']))
     for e in evs:
         if e['op'] == 'req':
             k = e['spec'].split(':')[0]
@@ -1068,7 +1071,7 @@ def run(ctx):
         chunks = [tc[i::32] for i in range(32)]
         for cases, results in common.parallel_map(_work_cases, [c for c in chunks if c]):
             _report(ctx, cases, results)
-    ctx.extra['torn_files_all_offsets'] = ctx.hist.get('torn:files', 0)
+    ctx.extra['torn_files_all_offsets'] = len(ctx.extra.pop('_torn_files', ()))
 
 
 def measure_contract(ctx):
